@@ -236,6 +236,9 @@ def eval_program(mod: ast.Module):
         if isinstance(e, ast.Name):
             if e.id in env:
                 return env[e.id]
+            if e.id == "UNPICKLER":
+                # the decompiler's name for the unpickler object: only its persistent_load is ever used
+                return type("UNPICKLER", (), {"persistent_load": standin("UNPICKLER", "persistent_load")})
             if hasattr(builtins, e.id) or e.id in ("xrange", "unicode", "long", "basestring", "unichr", "reduce", "intern", "raw_input", "execfile", "file", "cmp", "apply", "buffer", "coerce"):
                 return standin("builtins", e.id)  # a bare name is a builtin the VM resolved without an import being emitted
             raise NameError(f"name '{e.id}' is not defined in the decompiled program")
@@ -553,6 +556,7 @@ VALUE_SAFE_HAND = {
     "SHORT_BINSTRING", "BINSTRING", "BINUNICODE8", "BINBYTES8", "BINFLOAT", "BININT2", "BININT negative", "text PUT/GET", "text PUT with spaces", "BINPUT/BINGET", "LONG_BINPUT/GET", "MEMOIZE",
     "POP / DUP / POP_MARK", "EMPTY_SET/ADDITEMS/FROZENSET", "APPEND/SETITEM", "TUPLE1/2/3", "DICT/LIST from marks", "NEWTRUE/NEWFALSE/NONE", "BYTEARRAY8", "OBJ", "NEWOBJ", "NEWOBJ_EX", "REDUCE+BUILD",
     "FRAME with a wrong length", "FRAME zero", "two PROTO opcodes", "PROTO not first",
+    "torch-like state dict (BINPERSID storage, _rebuild_tensor_v2, OrderedDict + BUILD)",
 }
 
 C09_KEYS = ("stack-depth", "mark-positions", "memo-keys", "opcode-order", "stops-elsewhere", "parse-raises", "decompile-raises")
